@@ -14,17 +14,20 @@ VARIABLES a, b, ph    \* ph = 0: the single scope a (b = a); ph = 1: the ordered
 
 \* Byte order of the strings of the universe, written by hand; checks/c09.py verifies it is
 \* ascending in byte order, and the traces use the order computed by the harness instead.
-MCStrs == <<"", "*", "+", "a", "b", "catalog", "delete", "foo", "other", "pull", "push",
-            "registry", "repository", "x", "y">>
-MCCls == <<"empty", "clean", "clean", "clean", "clean", "clean", "clean", "clean", "clean", "clean", "clean",
+MCStrs == <<"", "*", "+", "a", "b", "catalog", "delete", "foo", "pull", "push",
+            "registry", "repository", "service", "x">>
+MCCls == <<"empty", "clean", "clean", "clean", "clean", "clean", "clean", "clean", "clean", "clean",
            "clean", "clean", "clean", "clean">>
 
+\* Known repository scopes (pull, push), the empty repository name, the catalog scope and a near
+\* miss of it, an opaque word, an unknown action on a repository, and a type sorting AFTER
+\* "repository" that names the same resource as a repository (service:a:x).  The harness also
+\* uses the last two as the right operands of several unions from one receiver.
 MCU9 == << <<"repository", "", "pull">>, <<"repository", "a", "pull">>, <<"repository", "a", "push">>,
-           <<"repository", "a", "delete">>, <<"repository", "b", "pull">>,
+           <<"repository", "b", "pull">>,
            <<"registry", "catalog", "*">>, <<"registry", "catalog", "+">>,
-           <<"other", "x", "y">>, <<"foo", "", "">> >>
-Idx6 == {1, 2, 3, 4, 6, 9}
-Idx7 == {1, 2, 3, 4, 5, 6, 9}
+           <<"foo", "", "">>, <<"repository", "a", "delete">>, <<"service", "a", "x">> >>
+Idx6 == {1, 2, 3, 5, 8, 9}
 Idx9 == 1..9
 
 UU == ToSet(U)
